@@ -149,15 +149,22 @@ def build(ctx, P, G, klen, opts, lead, trail, checksum_mode, stray=None):
 
 
 def with_stub(cands_fn, P, G, f):
+    """the key-candidate heuristic is replaced by the harness' candidate list in BOTH modes (at the scaled sizes the real n-gram
+    heuristic sees 24..32 bytes and is meaningless; it runs for real, at real size, in prechecks)"""
     scaled(P, G, True)
+    real = guardrails.find_xor_key_candidates
     if not is_native():
-        I.stubs[guardrails.find_xor_key_candidates] = cands_fn
+        I.stubs[real] = cands_fn
         I.stubs[pe.find_mz_offset] = lambda *a, **k: None
+    else:
+        guardrails.find_xor_key_candidates = lambda fh: [V.to_native(as_bytes(c)) if not isinstance(c, bytes) else c for c in cands_fn(fh)]
     try:
         return f()
     finally:
         scaled(P, G, False)
-        I.stubs.pop(guardrails.find_xor_key_candidates, None)
+        if is_native():
+            guardrails.find_xor_key_candidates = real
+        I.stubs.pop(real, None)
         I.stubs.pop(pe.find_mz_offset, None)
 
 
